@@ -125,8 +125,11 @@ Qed.
 Lemma may_connect_b_spec off own filter target t p :
   may_connect_b off own filter target t p = true <-> may_connect off own filter target t p.
 Proof.
-  destruct t; cbn [may_connect_b may_connect]; unfold connect_ind_for;
-    rewrite ?andb_true_iff, ?request_for_b_spec, ?from_target_b_spec; try tauto; split; [discriminate|tauto].
+  destruct t; cbn [may_connect_b may_connect]; unfold connect_ind_for.
+  - rewrite andb_true_iff, request_for_b_spec. tauto.
+  - rewrite !andb_true_iff, request_for_b_spec, from_target_b_spec. tauto.
+  - split; [discriminate|tauto].
+  - split; [discriminate|tauto].
 Qed.
 
 Theorem accepts_iff c s p :
